@@ -1,6 +1,6 @@
 (* C06: liquidation only of under-margined positions, with exact payouts.  Statements only. *)
 From MP.Model Require Import Prelude U128 SInt Feed Vamm VammOps Token World Engine Runtime.
-From MP.Proofs Require Import Tactics SIntFacts EngineArith CloseFacts LiqFacts LiqTxFacts.
+From MP.Proofs Require Import Tactics SIntFacts EngineArith CloseFacts LiqFacts LiqTxFacts MirrorFacts PartialLiqTxFacts.
 From MP.Model Require Import Scenario.
 
 (* Liquidate is accepted only if the liquidation ratio (spot/TWAP ratio, overridden by the oracle
@@ -72,4 +72,46 @@ Definition c06_example : bool :=
   | Err _ => false
   end.
 Example C06_nonvacuous : c06_example = true.
+Proof. vm_compute. reflexivity. Qed.
+
+(* END TO END, partial liquidation.  A Liquidate transaction after which the position is still stored - the
+   partial path - has swapped out exactly b = floor(|size| x partial ratio / D) base, leaves the position with
+   size moved by exactly b toward zero and its direction unchanged, and pays the liquidator exactly
+   floor(floor(exchanged quote x fee ratio / D) / 2). *)
+Theorem C06_partial_liquidation_tx : forall f w s v t lim funds w',
+  exec_op f w (OEngine s (ELiquidate v t lim) funds) = Ok w' ->
+  let p := read_position (w_eng w) v t in
+  let c := ec (w_eng w) in
+  coherent p -> 0 <= e_plr c -> 0 < e_dec c ->
+  s <> A_ENGINE -> s <> A_IFUND -> s <> if_engine (w_if w) -> s <> e_ifund c ->
+  (exists p1, find_position (w_eng w') v t = Some p1) ->
+  exists p' vm vm' o,
+    find_position (w_eng w') v t = Some p' /\
+    get_vamm w v = Ok vm /\
+    let b := sval (p_size p) * e_plr c / e_dec c in
+    swap_output vm (w_env w) A_ENGINE (p_dir p) b (lim * e_plr c / e_dec c) = Ok (vm', (o, b)) /\
+    toZ (p_size p') = (if toZ (p_size p) <? 0 then toZ (p_size p) + b else toZ (p_size p) - b) /\
+    p_dir p' = p_dir p /\
+    bal (w_tok w') s = bal (w_tok w) s - funds + o * e_liqfee c / e_dec c / 2.
+Proof. exact partial_liquidation_tx. Qed.
+Print Assumptions C06_partial_liquidation_tx.
+
+(* non-vacuity: with a 25% partial ratio and a margin ratio between the liquidation fee and maintenance,
+   trader 22 is liquidated in part *)
+Definition c06_partial_example : bool :=
+  match scenario with
+  | Ok w =>
+      let w1 := run w [OEngine 1 (EUpdateConfig None None None (Some 900000) (Some 900000) (Some 250000) None) 0] in
+      match exec_op (-1) w1 (OEngine 31 (ELiquidate 11 22 0) 0) with
+      | Ok w' =>
+          let p := read_position (w_eng w1) 11 22 in
+          match find_position (w_eng w') 11 22 with
+          | Some p' => (sval (p_size p') <? sval (p_size p)) && negb (sval (p_size p') =? 0) && (bal (w_tok w1) 31 <? bal (w_tok w') 31)
+          | None => false
+          end
+      | Err _ => false
+      end
+  | Err _ => false
+  end.
+Example C06_partial_nonvacuous : c06_partial_example = true.
 Proof. vm_compute. reflexivity. Qed.
